@@ -42,6 +42,14 @@ try:
 finally:
     sh("git -C %s checkout -- . ; git -C %s clean -fdq -- pytorch_wavelets" % (REPO, REPO))
     sh("rm -rf /verif/replays; git -C /verif checkout -- evidence")
+old = {}
+if os.path.exists(os.path.join(dst, "meta.json")):
+    try:
+        old = json.load(open(os.path.join(dst, "meta.json"))).get("quick_checks_on_refactored_tree", {})
+    except Exception:   # noqa
+        old = {}
+old.update(results)             # later runs (after a correction of the machinery) replace the earlier result of the same check
+results = old
 meta = {"kind": "behaviour-preserving refactoring (independent sub-agent; equivalence checked differentially by the agent)",
         "notes": open(os.path.join(dst, "NOTES.md")).read()[:2000] if os.path.exists(os.path.join(dst, "NOTES.md")) else "",
         "quick_checks_on_refactored_tree": results,
